@@ -271,6 +271,11 @@ func mapDynamoToTypesItem(item dynamodbtypes.AttributeValue) *types.Item {
 
 	itemBS, ok := item.(*dynamodbtypes.AttributeValueMemberBS)
 	if ok {
+		if itemBS.Value == nil {
+			// the member says "binary set": it keeps its type, like the string and number sets do
+			return &types.Item{BS: [][]byte{}}
+		}
+
 		return &types.Item{BS: copyBytesSlice(itemBS.Value)}
 	}
 
